@@ -160,7 +160,7 @@ def search(ck, tier, seed):
     # the spline functions in float32 on knots and end points, moderate parameters
     for fam in sh.FAMILIES:
         for K in (2, 5):
-            for kind in ("zeros", "normal"):
+            for kind in ("zeros", "normal", "wide", "onehot"):
                 for bi, box in enumerate(sh.BOXES[:4]):
                     g = tgen(seed, "c19s", fam, K, kind, bi)
                     p64 = sh.gen_params(fam, K, False, kind, g)
@@ -181,6 +181,21 @@ def search(ck, tier, seed):
                     if float((a[1][0].double() - b[1][0]).abs().max()) > 5e-5 * scale * (1 + float(torch.exp(b[1][1].clamp(max=10)).max())):
                         ck.finding("precision:spline-float32-disagrees:%s" % fam,
                                    "%s box %s K=%d %s: max error %.3g" % (fam, box, K, kind, float((a[1][0].double() - b[1][0]).abs().max())), case)
+                    # log-abs-det inside the bins (next to a knot the two precisions may pick neighbouring bins, where it jumps).
+                    # Peaked parameters (logit spread ~12) give bins of mass 1e-6: a density formed as a DIFFERENCE of cumulative
+                    # values keeps no digits there; the linear spline has no minimum bin size and reads the density directly
+                    ks = torch.tensor(sh.knots_x(fam, p64, box), dtype=torch.float64)
+                    inside = (x32.double()[:, None] - ks[None, :]).abs().min(1).values > 1e-4 * (box[1] - box[0])
+                    l32, l64 = a[1][1].double(), b[1][1]
+                    sel = inside & torch.isfinite(l64)
+                    if bool(sel.any()):
+                        ltol = 2e-5 if fam == "linear" else (4e-4 if kind in ("zeros", "normal") else 1e-2)
+                        lerr = (l32[sel] - l64[sel]).abs()
+                        if not bool(torch.isfinite(l32[sel]).all()) or float(lerr.max()) > ltol:
+                            i = int(torch.argmax(torch.nan_to_num(lerr, nan=1e30, posinf=1e30)))
+                            ck.finding("precision:spline-float32-logabsdet-disagrees:%s" % fam,
+                                       "%s box %s K=%d %s parameters at x=%r: float32 log-abs-det %r, float64 %r" % (
+                                           fam, box, K, kind, float(x32[sel][i]), float(l32[sel][i]), float(l64[sel][i])), case)
 
 
 def dense_inverse(ck, tier, seed):
